@@ -19,9 +19,22 @@ MANIFEST = dict(
          "invariant 'each cached path equals a fresh parse, each cached handler a fresh lookup' holds after "
          "every step although check-then-store is not atomic; (c20_noninterference) for every schedule every "
          "call that finishes has exactly the outcome it has when run alone, and run alone it finishes; "
-         "(c20_nested) a glom call made from a callable inside a running call, to any depth, allocates its "
-         "own root frame under the default scope and leaves every existing frame untouched, and the outer "
-         "call continues with the inner outcome (value or caught failure) as if it were a constant; "
+         "the handler memo holds handlers AND remembered False (a raise_exc=False lookup by user code): the entry read "
+         "last is re-checked, so a raising lookup raises whatever another call remembered (counter-example by decide "
+         "for get_handler before /repo 8b51f6e); "
+         "(c20_nested) under every schedule a call whose callable calls glom() itself ends with the outcome it has when "
+         "the inner call is replaced by the constant the inner call evaluates to alone; "
+         "(c20_scope_noninterference, c20_scope_private, c20_scope_model_checks) THE SECOND SENTENCE OF THE PROPERTY FOR "
+         "THREADS: the scopes of all calls of all threads as maps on ONE heap (glom(): a root map under the shared "
+         "default scope, also from inside a running call of the thread to any nesting depth; _glom: a child map per step "
+         "and LAST_CHILD_SCOPE into the calling map; writes of target / S-bindings / MODE / accumulators at any depth of "
+         "the chain; ChainMap lookups down to the default scope), threads taking turns operation by operation in ANY "
+         "order (so every address depends on the schedule): whatever a call reads through its scope is what the call "
+         "alone reads (a reference without heap and addresses), the maps of different threads are disjoint, the default "
+         "scope is never written; (c20_repr_guard_threads) the recursion guard of bbrepr keyed by (id, thread): a render "
+         "in one thread is what it is with an empty guard whatever other threads render -- and the counter-example "
+         "WITHIN a thread (a __repr__ that re-enters glom on the object being rendered: known finding "
+         "reentry_from_repr_during_render); "
          "(c20_reentry_frames) the per-call ERROR BOOKKEEPING (CHILD_ERRORS list objects, LAST_CHILD_SCOPE, "
          "CUR_ERROR, NO_PYFRAME) as heap state: a re-entrant call that is handed the scope of the running "
          "call (Spec(x).glom(t, scope=scope), glom(t, x, scope=scope)) and rebinds CHILD_ERRORS to a fresh "
@@ -78,7 +91,10 @@ MANIFEST = dict(
          "(literal heaps x 12 argument positions x push/yield programs x interleavings, re-entry, sequential reuse, "
          "free-running) whose reads and whose literal afterwards are compared with the calls alone AND with the Lean "
          "heap model run under the same schedule.",
-    note="partial because atomicity of a single dict lookup/store under the GIL and thread-locality of "
+    note="KNOWN FINDINGS reproduced by the generator and classified (not repaired in /repo): reentry_from_repr_during_render "
+         "(bbrepr's guard is per thread, not per call), vars_mutable_default_persists (Vars defaults do not go through "
+         "arg_val; a C07 violation); C20_SKIP_KNOWN=1 leaves these two case classes out. "
+         "partial because atomicity of a single dict lookup/store under the GIL and thread-locality of "
          "sys.exc_info() are properties of CPython that are assumed; a theorem cannot exhibit a GIL-level "
          "race, and the enumeration switches threads only at user callables. Registration concurrent with "
          "running calls is outside the property (and is not thread-safe: observed RuntimeError 'OrderedDict "
@@ -90,7 +106,23 @@ MANIFEST = dict(
               'see inner calls) + refinement of a cached state machine by its cache-free reference (error object) + '
               'facts obligations by decide + enumerated-interleaving differential correspondence',
     ref='DESIGN.md §3 C20')
-RULE = ('calls are drawn from templates that make leakage visible: dotted string paths (cold path cache, '
+RULE = ('TEMPLATES (42) cover the spec language: paths, T, S / A, Fold, Group, Fill, Match, Coalesce, raising callables, and '
+        '(audit G7) Iter pipelines run to the end / handed on LAZILY to a later step / first(), Ref recursion, Switch with and '
+        'without default, Check, Regex, Or, And, Not, Invoke, Call with Spec arguments, Delete, Flatten, Sum, Merge, `*` and `**` '
+        'paths, per-call Vars, a custom spec that asks the registry with raise_exc=False (its False is remembered in the memo all '
+        'calls share) next to a call that iterates the same unregistered type (all interleavings), and the keyword arguments '
+        'default= / skip_exc= (hit and miss) / glom_debug=True; pairs of templates under sampled (quick: 12 per pair) or all '
+        'interleavings, and the same calls through ONE Glommer instance (its own registry and memo) scheduled and free-running. '
+        'RE-ENTRY FROM A __repr__ (mode repr): the outer call fails, rendering its error runs the __repr__ of its target (a dict '
+        'subclass) or of a spec object, which makes a glom call of its own -- on the very object whose repr is running, or on '
+        'another object with the same content -- catches its error and renders it; 3 outer failures x 3 inner calls x 2 x 2; '
+        'expected: the inner outcome = the call at top level, the outer message = the one with a __repr__ that makes no call '
+        '(the same-object variants FAIL: known finding reentry_from_repr_during_render). '
+        'SHARED Vars DEFAULT: argument position `vars` = S(v=Vars(acc=LIT)) (FAILS: known finding vars_mutable_default_persists). '
+        'The driver refuses a case in which a field it reads is missing (null = does not apply to this mode), and its thread '
+        'model replays every logged shared access with the result it had alone: an access that gives something else ends the '
+        'MODEL call differently. '
+        'calls are drawn from templates that make leakage visible: dotted string paths (cold path cache, '
         'texts shared between threads and private ones), S/A scope writes read back later, Fold and Group '
         'accumulators fed through yielding callables, Fill/Match modes around a yield, Coalesce over a '
         'failing branch, calls that end in PathAccessError / a raising callable (full trace text compared), '
@@ -146,7 +178,14 @@ RULE = ('calls are drawn from templates that make leakage visible: dotted string
 TRUSTED = ["CPython: a single dict lookup / store is atomic under the GIL; sys.exc_info() and the Python call "
            "stack are per thread (assumed)",
            "the harness scheduler (threading.Semaphore handshakes; one runnable call at a time between yield points)"]
-ASSUMPTIONS = ['error objects: an error finalized IN PLACE (copy.copy cannot re-create its class) was not finalized as a copy '
+ASSUMPTIONS = ['READING (audit G1): a glom call made by user code that runs INSIDE the rendering of a glom error (a __repr__ of a target '
+               'or spec object, called by the trace renderer) is a re-entrant call in the sense of the property: it must show '
+               'the trace it shows alone. glom breaks this for the object whose repr is running (recorded, not repaired)',
+               'READING (audit G2): one spec object used by several calls is shared state of glom\'s own making; a value a spec '
+               'hands out without arg_val (Vars defaults) that persists between calls is a violation (recorded under C07)',
+               'READING (audit G6): a lookup with raise_exc=False made by user code (a custom spec asking the registry) is a '
+               'legitimate part of a history; what it remembers must not change a later call',
+               'error objects: an error finalized IN PLACE (copy.copy cannot re-create its class) was not finalized as a copy '
                'before (user code does not raise a dict-carrying copy of an in-place class through another glom call); the '
                'message of an error that is not finalized is get_message() and is compared only by kind: a CoalesceError / '
                'CheckError of the running call keeps the live scope[Path] list, which later chain steps of the same call '
@@ -169,6 +208,9 @@ ASSUMPTIONS = ['error objects: an error finalized IN PLACE (copy.copy cannot re-
                'isolated reference is the same evaluation made from a trivial outer call']
 
 TIMEOUT = 3.0
+# the two case classes that reproduce RECORDED, unrepaired violations (KNOWN_FINDINGS.txt: classifiers
+# reentry_from_repr_during_render, vars_mutable_default_persists) can be left out to see the rest alone
+SKIP_KNOWN = bool(os.environ.get('C20_SKIP_KNOWN'))
 
 # ----------------------------------------------------------------------------- value codec
 
@@ -753,6 +795,20 @@ class ReenterFn(Reenter):
         return self._do(target, scope, False)
 
 
+class IterOrSelf:
+    """a custom spec as extension authors write them: it asks the registry whether the target can be
+    iterated -- `scope[TargetRegistry].get_handler('iterate', target, raise_exc=False)`, which
+    answers False instead of raising -- and gives the items, or the target in a list"""
+
+    def glomit(self, target, scope):
+        import glom
+        h = scope[glom.core.TargetRegistry].get_handler('iterate', target, raise_exc=False)
+        return list(h(target)) if h else [target]
+
+    def __repr__(self):
+        return 'IterOrSelf'
+
+
 class Probe:
     """a custom spec that evaluates `sub` the ordinary way, as a child of the running scope, inside a
     `try`: an observation point for whatever exception is in flight at this position of the spec --
@@ -797,7 +853,9 @@ ARG_FUEL = 8            # = argFuel of the Lean driver (how deep a value is read
 # Call(f, kwargs={'x': LIT}) / S.k(LIT) / Assign(p, LIT) / Or(…, default=LIT) / Optional(k, default=LIT) /
 # Check(…, default=LIT) / Switch(…, default=LIT) / S(acc=Coalesce(…, default=LIT))
 ARG_POS = ['sset', 'coalesce', 'tget', 'callarg', 'callkw', 'tcall', 'assign', 'ordefault', 'optdefault',
-           'checkdefault', 'switchdefault', 'ssetnested']
+           'checkdefault', 'switchdefault', 'ssetnested', 'vars']
+# 'vars': S(v=Vars(acc=LIT)) -- `Vars.glomit` builds ScopeVars(base, defaults) WITHOUT arg_val: the call receives
+# the literal itself (audit finding G2; a C07 violation recorded as known finding vars_mutable_default_persists)
 
 
 def leaf_obj(token):
@@ -906,6 +964,8 @@ def build_accum(d, ctx):
         obtain = [S(acc=lit)]
     elif pos == 'ssetnested':
         obtain = [S(acc=Coalesce('nokey', default=lit))]
+    elif pos == 'vars':
+        obtain = [S(v=glom.Vars(acc=lit)), S(acc=S.v.acc)]
     elif pos == 'assign':
         obtain = [Assign('slot', lit), S(acc=T['slot']), S.t]
     else:
@@ -942,7 +1002,7 @@ def build_accum(d, ctx):
 def accum_ops(d, target):
     """the call in the operations of the Lean model, and what the target makes of the T leaves"""
     t = dec(target)
-    ops = [['bind', d['root']]]
+    ops = [['bindraw' if d['pos'] == 'vars' else 'bind', d['root']]]
     for st in d['steps']:
         ops.append(['yield'] if st[0] == 'y' else ['push', st[2], repr(t[st[3]])])
     ops.append(['read'])
@@ -991,6 +1051,44 @@ def build(sj, ctx):
         return Boom()
     if k == 'raiseg':
         return RaiseG(sj[1])
+    if k == 'iterorself':
+        return IterOrSelf()
+    if k == 'iterall':                       # a pipeline that is run to the end inside the spec
+        return glom.Iter(build(sj[1], ctx)).filter(lambda x: x is not None).all()
+    if k == 'iterlazy':                      # a LAZY iterator handed to the next step: the stages run while `list` pulls
+        return (glom.Iter(build(sj[1], ctx)).chunked(2), list)
+    if k == 'iterfirst':
+        return glom.Iter(build(sj[1], ctx)).first()
+    if k == 'ref':                           # recursion through a named reference: the chain under 'next'
+        return glom.Ref('node', glom.Or((T['next'], build(sj[1], ctx), glom.Ref('node')), T['v']))
+    if k == 'switch':
+        return glom.Switch([(build(c, ctx), build(v, ctx)) for c, v in sj[1]], **({'default': sj[2]} if len(sj) > 2 else {}))
+    if k == 'check':
+        return glom.Check(build(sj[1], ctx), **{sj[2]: {'int': int, 'str': str}.get(sj[3], sj[3])})
+    if k == 'regex':
+        return Match(glom.Regex(sj[1]))
+    if k == 'or':
+        return glom.Or(*[build(x, ctx) for x in sj[1]])
+    if k == 'and':
+        return glom.And(*[build(x, ctx) for x in sj[1]])
+    if k == 'not':
+        return Match(glom.Not({'int': int, 'str': str}[sj[1]]))
+    if k == 'invoke':
+        return glom.Invoke(lambda a, b: [a, b]).specs(build(sj[1], ctx)).constants(sj[2])
+    if k == 'call':
+        return glom.Call(lambda a, b=None: (a, b), args=(glom.Spec(build(sj[1], ctx)),), kwargs={'b': glom.Spec(build(sj[2], ctx))})
+    if k == 'delete':
+        return glom.Delete(sj[1])
+    if k == 'merge':
+        return glom.Merge()
+    if k == 'flatten':
+        return glom.Flatten()
+    if k == 'sum':
+        return glom.Sum()
+    if k == 'vars':                          # S(v=Vars()): per-call variables (no mutable default: see ARG_POS 'vars')
+        return S(v=glom.Vars(**{sj[1]: build(sj[2], ctx)}))
+    if k == 'svar':
+        return getattr(S.v, sj[1])
     if k == 'probe':
         return Probe(ctx, sj[1], sj[2], build(sj[3], ctx))
     if k == 'late':
@@ -1084,9 +1182,10 @@ class Logged:
             try:
                 h = orig_gh(reg, op, obj, path=path, raise_exc=raise_exc)
             except core.UnregisteredTarget:
-                ctx.logs[-1].append(['handler', type(obj).__name__, op, None])
+                ctx.logs[-1].append(['handler', type(obj).__name__, op, None, bool(raise_exc)])
                 raise
-            ctx.logs[-1].append(['handler', type(obj).__name__, op, handler_name(h)])
+            # (False: no handler, told to a caller that asked with raise_exc=False)
+            ctx.logs[-1].append(['handler', type(obj).__name__, op, None if h is False else handler_name(h), bool(raise_exc)])
             return h
         core.Path.from_text = classmethod(from_text)
         core.TargetRegistry.get_handler = get_handler
@@ -1101,10 +1200,32 @@ def handler_name(h):
     return getattr(h, '__qualname__', None) or getattr(h, '__name__', None) or repr(h)
 
 
+# the registry whose handler memo the calls of the current run share: the module-level one, or that of
+# the Glommer instance the calls of a case go through
+_REG = [None]
+
+
+def the_registry():
+    import glom.core as core
+    return _REG[0] if _REG[0] is not None else core._DEFAULT_SCOPE[core.TargetRegistry]
+
+
+def entry_point(via_glommer):
+    """the way the calls of a run are made: glom.glom, or the glom method of ONE Glommer instance (its
+    own registry and handler memo) that all of them share"""
+    import glom
+    if via_glommer:
+        g = glom.Glommer()
+        _REG[0] = g.scope[glom.core.TargetRegistry]
+        return g.glom
+    _REG[0] = None
+    return glom.glom
+
+
 def clear_caches():
     import glom.core as core
     core.Path._CACHE[True].clear()
-    core._DEFAULT_SCOPE[core.TargetRegistry]._type_cache = {}
+    the_registry()._type_cache = {}
 
 
 def snapshot_caches():
@@ -1113,7 +1234,7 @@ def snapshot_caches():
     for text, p in sorted(core.Path._CACHE[True].items()):
         segs = [core._T_STAR if s == '*' else core._T_STARSTAR if s == '**' else s for s in text.split('.')]
         pc.append([text, repr(p), repr(core.Path(*segs))])
-    reg = core._DEFAULT_SCOPE[core.TargetRegistry]
+    reg = the_registry()
     tc = []
     cached = dict(reg._type_cache)
     def tyname(t):
@@ -1157,9 +1278,17 @@ def remember_instance(obj):
 
 # ----------------------------------------------------------------------------- running cases
 
+SKIP_EXC = {'KeyError': KeyError, 'ValueError': ValueError, 'GlomError': None, 'LookupError': LookupError}
+
+
 def call_kw(call):
-    """keyword arguments of the glom() call of a case: the user's scope variables"""
-    return {'scope': dict(call['scope'])} if call.get('scope') else {}
+    """keyword arguments of the glom() call of a case: the user's scope variables, default= / skip_exc= /
+    glom_debug="""
+    import glom
+    kw = {'scope': dict(call['scope'])} if call.get('scope') else {}
+    for k, v in (call.get('kw') or {}).items():
+        kw[k] = (SKIP_EXC[v] or glom.GlomError) if k == 'skip_exc' else v
+    return kw
 
 
 def run_alone(call, tid):
@@ -1169,10 +1298,12 @@ def run_alone(call, tid):
     ctx = Ctx(tid, log=log)
     target = dec(call['target'])
     _walk_remember(target)
-    spec = build(call['spec'], ctx)
+    entry = entry_point(call.get('via') == 'glommer')
     clear_caches()
     with Logged(ctx):
-        out, exc = outcome_of(lambda: glom.glom(target, spec, **call_kw(call)))
+        spec = build(call['spec'], ctx)          # (Delete / Assign parse their path when the spec is built)
+        out, exc = outcome_of(lambda: entry(target, spec, **call_kw(call)))
+    _REG[0] = None
     return log, out, ctx
 
 
@@ -1323,9 +1454,22 @@ def read_of(o):
 
 
 def run_impl(case):
+    """the case with the implementation's observation.  Every field the driver reads is there: one
+    that does not apply to the mode of the case is None (the driver refuses a missing field)"""
+    out = _run_impl(case)
+    for k in ('schedule', 'argsys', 'errhist', 'rspec'):
+        out.setdefault(k, None)
+    for k in ('spec_same', 'skeleton'):
+        out['impl'].setdefault(k, None)
+    return out
+
+
+def _run_impl(case):
     import glom
     if case['mode'] == 'shared':
         return run_shared(case)
+    if case['mode'] == 'repr':
+        return run_repr(case, dict(case))
     calls = case['calls']
     n = len(calls)
     out = dict(case)
@@ -1340,6 +1484,7 @@ def run_impl(case):
         return run_nested(case, out, threads_payload, alone_ctxs)
     if mode == 'reent':
         return run_reent(case, out, threads_payload, alone_ctxs)
+    entry = entry_point(any(c.get('via') == 'glommer' for c in calls))
     clear_caches()
     results = [None] * n
     if mode == 'sched':
@@ -1355,7 +1500,7 @@ def run_impl(case):
             target = dec(calls[tid]['target'])
             spec = build(calls[tid]['spec'], ctx)
             sched.yield_point(tid)                      # wait for the first segment
-            results[tid] = outcome_of(lambda: glom.glom(target, spec, **call_kw(calls[tid])))[0]
+            results[tid] = outcome_of(lambda: entry(target, spec, **call_kw(calls[tid])))[0]
             sched.finished[tid] = True
             sched.arrived[tid].release()
         ths = [threading.Thread(target=body, args=(i,), daemon=True) for i in range(n)]
@@ -1383,15 +1528,15 @@ def run_impl(case):
 
         def body(tid):
             ctx = Ctx(tid)
-            target = dec(calls[tid]['target'])
             try:
                 barrier.wait(timeout=TIMEOUT)
             except threading.BrokenBarrierError:
                 pass
             res = alone[tid]
             for _ in range(reps):
+                target = dec(calls[tid]['target'])       # (a Delete / Assign in the spec changes the target)
                 spec = build(calls[tid]['spec'], ctx)
-                o = outcome_of(lambda: glom.glom(target, spec, **call_kw(calls[tid])))[0]
+                o = outcome_of(lambda: entry(target, spec, **call_kw(calls[tid])))[0]
                 if o != alone[tid]:
                     res = o
                     break
@@ -1409,10 +1554,127 @@ def run_impl(case):
         finally:
             sys.setswitchinterval(old)
     pc, tc = snapshot_caches()
+    _REG[0] = None
     out['threads'] = threads_payload
     out['impl'] = {'outs': [r if r is not None else {'err': ['NoResult', 'the call did not finish']} for r in results],
                    'pcache': pc, 'tcache': tc, 'deadlock': deadlock}
     return out
+
+
+# ----------------------------------------------------------------------------- re-entry from a __repr__ while a trace is rendered
+
+class ReprHook:
+    """what the `__repr__` of an object does while it runs: a glom call of its own (on the very object
+    whose repr is running, or on another object with the same content), whose error it catches and
+    renders -- as a logging `__repr__`, a lazy proxy, an ORM object does"""
+
+    def __init__(self, ctx, d):
+        self.ctx, self.d, self.busy, self.seen = ctx, d, False, None
+
+    def __call__(self, obj):
+        import glom
+        if self.busy or self.seen is not None:
+            return
+        self.busy = True
+        try:
+            d = self.d
+            if d['where'] == 'target':
+                target = obj if d['on'] == 'self' else ReprT(dict(obj), None)
+                spec = build(d['inner'], self.ctx)
+            else:
+                target = dec(d['data'])
+                spec = (d['inner_path'], obj if d['on'] == 'self' else ReprFn(None))
+            v, exc = raw_call(lambda: glom.glom(target, spec))
+            self.seen = outcome_from(v, exc)
+        finally:
+            self.busy = False
+
+
+class ReprT(dict):
+    """a target (a dict) with a `__repr__` of its own"""
+
+    def __init__(self, data, hook):
+        dict.__init__(self, data)
+        self.hook = hook
+
+    def __repr__(self):
+        if self.hook is not None:
+            self.hook(self)
+        return 'Tgt(%d)' % len(self)
+
+
+class ReprFn:
+    """a spec (a callable that rejects its target) with a `__repr__` of its own"""
+
+    def __init__(self, hook):
+        self.hook = hook
+
+    def __call__(self, x):
+        raise ValueError('rejected %r' % (x,))
+
+    def __repr__(self):
+        if self.hook is not None:
+            self.hook(self)
+        return 'Fn()'
+
+
+def run_repr(case, out):
+    """the outer call fails; rendering its error runs the `__repr__` of its target (or of a spec object),
+    which makes a glom call of its own.  Observed: the outer message, and the outcome of the inner
+    call as the `__repr__` saw it; expected: the outer call with a `__repr__` that makes no call, and
+    the inner call made at top level."""
+    import glom
+    d = case['repr']
+    outer = case['calls'][0]
+    data = dec(outer['target'])
+
+    def outer_call(hook, ctx):
+        if d['where'] == 'target':
+            return ReprT(data, hook), build(outer['spec'], ctx)
+        return data, (d['outer_path'], ReprFn(hook))
+
+    def inner_alone(ctx):
+        if d['where'] == 'target':
+            return ReprT(data, None), build(d['inner'], ctx)
+        return dec(d['data']), (d['inner_path'], ReprFn(None))
+    payload = []
+    for mk in (lambda c: outer_call(None, c), inner_alone):
+        log = []
+        c = Ctx(0, log=log)
+        t, sp = mk(c)
+        clear_caches()
+        with Logged(c):
+            o = outcome_of(lambda: glom.glom(t, sp))[0]
+        payload.append({'events': log, 'alone': o})
+    clear_caches()
+    ctx = Ctx(0)
+    hook = ReprHook(ctx, d)
+    t, sp = outer_call(hook, ctx)
+    o_real = outcome_of(lambda: glom.glom(t, sp))[0]
+    pc, tc = snapshot_caches()
+    inner = hook.seen
+    if inner is None:           # the repr was not run (the outer call did not fail): nothing to compare
+        inner = payload[1]['alone']
+        payload[1] = dict(payload[1], events=[])
+    out['threads'] = payload
+    out['impl'] = {'outs': [o_real, inner], 'pcache': pc, 'tcache': tc, 'deadlock': False}
+    return out
+
+
+def gen_repr(rng, tier):
+    """every combination of: whose `__repr__` re-enters (the target's / a spec object's), on what (the
+    object whose repr is running / another object with the same content), how the outer call fails,
+    what the inner call does (fails in two ways, succeeds)"""
+    data = D(a=D(b=1), p=D(q=3))
+    for on in ('self', 'other'):
+        for outer in (['path', 'zzz'], ['tuple', [['path', 'a'], ['path', 'nope']]], ['coalesce', [['path', 'x'], ['path', 'a.y']]]):
+            for inner in (['path', 'nope'], ['tuple', [['path', 'p'], ['path', 'zz']]], ['path', 'a.b']):
+                yield {'mode': 'repr', 'names': ['repr_target_' + on], 'calls': [{'target': data, 'spec': outer}],
+                       'repr': {'where': 'target', 'on': on, 'inner': inner}}
+        for outer_path in ('a', 'p.q'):
+            for inner_path in ('a.b', 'p'):
+                yield {'mode': 'repr', 'names': ['repr_spec_' + on], 'calls': [{'target': data, 'spec': ['path', outer_path]}],
+                       'repr': {'where': 'spec', 'on': on, 'outer_path': outer_path, 'inner_path': inner_path, 'data': data}}
 
 
 def strip_obs(sj):
@@ -1783,6 +2045,42 @@ def templates(u):
     out.append(('fail_boom1', {'target': tgt, 'spec': ['tuple', [['path', 'a.e'], ['y', 0], ['boom']]]}, 1))
     out.append(('fail_match1', {'target': tgt, 'spec': ['tuple', [['path', 'a.b'], ['y', 0], ['matchd', [['c', 'str']]]]]}, 1))
     out.append(('quad4', {'target': tgt, 'spec': ['tuple', [['y', 0], ['path', 'a'], ['y', 1], ['path', 'b'], ['y', 2], ['path', 'c'], ['y', 3, 'inc']]]}, 4))
+    # the registry asked with raise_exc=False (a custom spec of the user): the answer False is remembered in the
+    # handler memo all calls share; a call that iterates a target of the same type must still end in UnregisteredTarget
+    out.append(('ask_iter2', {'target': tgt, 'spec': ['tuple', [['y', 0], ['path', 'a.e'], ['iterorself'], ['y', 1]]]}, 2))
+    out.append(('fail_iter2', {'target': tgt, 'spec': ['tuple', [['y', 0], ['path', 'a.b.c'], ['y', 1], ['list', ['T', []]]]]}, 2))
+    out.append(('ask_iter_list1', {'target': tgt, 'spec': ['tuple', [['path', 'vals'], ['iterorself'], ['y', 0], ['list', ['y', 1, 'inc']]]]}, 4))
+    # the rest of the spec language (audit finding G7): streaming (eager, lazy: the stages run while a later step pulls),
+    # Ref recursion, Switch / Check / Regex / Or / And / Not, Invoke / Call, Delete, Merge / Flatten / Sum, wildcard paths,
+    # per-call Vars, and the keyword arguments default= / skip_exc= / glom_debug=
+    chain = D(v=1, next=D(v=2, next=D(v=3)))
+    tg2 = D(a=D(b=D(c=1, d=2), e=5), lists={'l': [{'l': [1, 2]}, {'l': [3]}]}, dicts={'l': [D(p=1), D(q=2)]},
+            rows={'l': [D(k='x', v=1), D(k='y', v=2)]}, word='abc', chain=chain, **{ku: D(z=7)})
+    out.append(('iter_all2', {'target': tg2, 'spec': ['tuple', [['path', 'rows'], ['iterall', ['tuple', [['T', [['[', 'v']]], ['y', 0, 'inc']]]]]]}, 2))
+    out.append(('iter_lazy2', {'target': tg2, 'spec': ['tuple', [['path', 'rows'], ['iterlazy', ['y', 0, 'k']]]]}, 2))
+    out.append(('iter_first1', {'target': tg2, 'spec': ['tuple', [['path', 'rows'], ['iterfirst', ['y', 0, 'k']]]]}, 1))
+    out.append(('ref3', {'target': tg2, 'spec': ['tuple', [['path', 'chain'], ['ref', ['y', 0]]]]}, 2))
+    out.append(('switch1', {'target': tg2, 'spec': ['switch', [[['path', 'a.zz'], ['val', 'first']], [['path', 'a.e'], ['tuple', [['y', 0], ['path', ku + '.z']]]]]]}, 1))
+    out.append(('switch_dflt1', {'target': tg2, 'spec': ['tuple', [['y', 0], ['switch', [[['path', 'a.zz'], ['val', 1]], [['path', 'zq.' + ku], ['val', 2]]], 'dflt']]]}, 1))
+    out.append(('check1', {'target': tg2, 'spec': ['tuple', [['path', 'a'], ['y', 0], ['check', ['path', 'e'], 'type', 'int'], ['path', 'b.c']]]}, 1))
+    out.append(('fail_check1', {'target': tg2, 'spec': ['tuple', [['path', 'a'], ['y', 0], ['check', ['path', 'e'], 'type', 'str']]]}, 1))
+    out.append(('regex1', {'target': tg2, 'spec': ['tuple', [['path', 'word'], ['y', 0], ['regex', '[a-z]+']]]}, 1))
+    out.append(('fail_regex1', {'target': tg2, 'spec': ['tuple', [['path', 'word'], ['y', 0], ['regex', '[0-9]+']]]}, 1))
+    out.append(('or_and2', {'target': tg2, 'spec': ['or', [['path', 'a.zz.' + ku], ['and', [['path', 'a'], ['y', 0], ['tuple', [['path', 'a.e'], ['y', 1, 'inc']]]]]]]}, 2))
+    out.append(('not1', {'target': tg2, 'spec': ['tuple', [['path', 'a.e'], ['y', 0], ['not', 'str']]]}, 1))
+    out.append(('invoke2', {'target': tg2, 'spec': ['tuple', [['y', 0], ['invoke', ['tuple', [['path', 'a.b.c'], ['y', 1, 'inc']]], 'const']]]}, 2))
+    out.append(('call2', {'target': tg2, 'spec': ['call', ['tuple', [['path', 'a.e'], ['y', 0]]], ['tuple', [['y', 1], ['path', ku + '.z']]]]}, 2))
+    out.append(('delete1', {'target': tg2, 'spec': ['tuple', [['delete', 'a.b.d'], ['y', 0], ['path', 'a.b']]]}, 1))
+    out.append(('fail_delete1', {'target': tg2, 'spec': ['tuple', [['y', 0], ['delete', 'a.b.zz' + ku]]]}, 1))
+    out.append(('flatten_sum2', {'target': tg2, 'spec': ['tuple', [['path', 'lists'], ['y', 0], ['flatten'], ['y', 1], ['sum']]]}, 2))
+    out.append(('merge1', {'target': tg2, 'spec': ['tuple', [['path', 'dicts'], ['y', 0], ['merge']]]}, 1))
+    out.append(('star2', {'target': tg2, 'spec': ['tuple', [['y', 0], ['path', 'rows.*.v'], ['y', 1], ['path', '*']]]}, 2))
+    out.append(('starstar1', {'target': tg2, 'spec': ['tuple', [['path', 'a.**.' + 'c'], ['y', 0]]]}, 1))
+    out.append(('vars2', {'target': tg2, 'spec': ['tuple', [['vars', 'n', ['raw', 5]], ['y', 0], ['dict', [['n', ['svar', 'n']], ['q', ['tuple', [['path', 'a.e'], ['y', 1]]]]]]]]}, 2))
+    out.append(('kw_default1', {'target': tg2, 'spec': ['tuple', [['y', 0], ['path', 'a.zz.' + ku]]], 'kw': {'default': 'dflt'}}, 1))
+    out.append(('kw_skip1', {'target': tg2, 'spec': ['tuple', [['path', 'a'], ['y', 0], ['T', [['[', 'zz']]]]], 'kw': {'default': None, 'skip_exc': 'KeyError'}}, 1))
+    out.append(('kw_skip_miss1', {'target': tg2, 'spec': ['tuple', [['path', 'a.e'], ['y', 0], ['boom']]], 'kw': {'default': 0, 'skip_exc': 'KeyError'}}, 1))
+    out.append(('kw_debug1', {'target': tg2, 'spec': ['tuple', [['path', 'a'], ['y', 0], ['path', 'nope.' + ku]]], 'kw': {'glom_debug': True}}, 1))
     return out
 
 
@@ -2016,8 +2314,8 @@ def gen_accum(rng, tier):
     quick = tier == 'quick'
     TA, TB, TC = D(id='A', name='alpha'), D(id='B', name='beta'), D(id='C', name='gamma')
     g = AccGen(rng)
-    poss = list(ARG_POS)
-    for rep in range(72 if quick else 1200):
+    poss = [p for p in ARG_POS if not (SKIP_KNOWN and p == 'vars')]
+    for rep in range(78 if quick else 1300):
         # every position meets the empty list, the empty dict and the empty set; then random literals
         rnd = rep // len(poss)
         name, spec, ny = g.case(pos=poss[rep % len(poss)], empty_root=['list', 'dict', 'set'][rnd] if rnd < 3 else None)
@@ -2229,8 +2527,8 @@ def generate(rng, tier, scale, **focus):
         b = templates(fresh())[j]
         segs = [a[2] + 1, b[2] + 1]
         scheds = list(interleavings(segs))
-        if quick and len(scheds) > 40:
-            scheds = rng.sample(scheds, 40)
+        if quick and len(scheds) > 12:             # (many pairs of templates rather than many schedules of few pairs)
+            scheds = rng.sample(scheds, 12)
         for s in scheds:
             yield {'mode': 'sched', 'calls': [a[1], b[1]], 'schedule': s, 'names': [a[0], b[0]]}
             made += 1
@@ -2241,6 +2539,22 @@ def generate(rng, tier, scale, **focus):
     b = templates(fresh())[names.index('quad4')]
     for s in interleavings([5, 5]):
         yield {'mode': 'sched', 'calls': [a[1], b[1]], 'schedule': s, 'names': ['quad4', 'quad4']}
+    # --- all interleavings of a call that asks the registry with raise_exc=False and one that iterates the same type
+    a = templates(fresh())[names.index('ask_iter2')]
+    b = templates(fresh())[names.index('fail_iter2')]
+    for s in interleavings([3, 3]):
+        yield {'mode': 'sched', 'calls': [a[1], b[1]], 'schedule': s, 'names': ['ask_iter2', 'fail_iter2']}
+    # --- the calls go through ONE Glommer instance (its own registry and handler memo), concurrently
+    for _ in range(8 if quick else 150):
+        cs = [templates(fresh())[rng.randrange(len(names))] for _ in range(2)]
+        calls = [dict(c[1], via='glommer') for c in cs]
+        scheds = list(interleavings([c[2] + 1 for c in cs]))
+        for s in (rng.sample(scheds, 3) if len(scheds) > 3 else scheds):
+            yield {'mode': 'sched', 'calls': calls, 'schedule': s, 'names': [c[0] + '@glommer' for c in cs]}
+    for _ in range(2 if quick else 20):
+        cs = [templates(fresh() if rng.random() < 0.5 else 1)[rng.randrange(len(names))] for _ in range(3)]
+        yield {'mode': 'free', 'calls': [dict(c[1], via='glommer') for c in cs], 'names': [c[0] + '@glommer' for c in cs],
+               'reps': 15 if quick else 60}
     # --- triples
     triples = list(itertools.combinations(range(len(names)), 3))
     rng.shuffle(triples)
@@ -2279,6 +2593,9 @@ def generate(rng, tier, scale, **focus):
             yield {'mode': 'nested', 'calls': [dict(call, spec=with_obs(rng, call['spec'], counter))], 'names': [name + '_obs']}
     # --- re-entrant calls made with access to the running scope
     yield from gen_reent(rng, tier, fresh)
+    # --- re-entrant calls made from a __repr__ while the outer call's error trace is rendered
+    if not SKIP_KNOWN:
+        yield from gen_repr(rng, tier)
     # --- ... inside scheduled threads
     for _ in range(12 if quick else 150):
         call = ReentGen(rng, fresh()).case()
@@ -2337,7 +2654,7 @@ def corpus():
 
 
 def key(case):
-    return {k: case.get(k) for k in ('mode', 'calls', 'spec', 'targets', 'nest_at', 'schedule', 'reps')}
+    return {k: case.get(k) for k in ('mode', 'calls', 'spec', 'targets', 'nest_at', 'schedule', 'reps', 'repr')}
 
 
 def interleaved(schedule):
@@ -2355,7 +2672,7 @@ def interleaved(schedule):
 
 
 def nontrivial(case, verdict):
-    if case['mode'] in ('nested', 'free', 'reent'):
+    if case['mode'] in ('nested', 'free', 'reent', 'repr'):
         return True
     if case['mode'] == 'shared':
         if case['spec'][0] == 'accum' and len(case['targets']) >= 2:
@@ -2364,6 +2681,22 @@ def nontrivial(case, verdict):
     if len(case['calls']) >= 2 and interleaved(case.get('schedule')):
         return True
     return False
+
+
+def classify(case, verdict):
+    """known findings (KNOWN_FINDINGS.txt): genuine violations that are recorded, not repaired"""
+    why = (verdict or {}).get('why', '')
+    if case.get('mode') == 'shared' and case['spec'][0] == 'accum' and case['spec'][1].get('pos') == 'vars' \
+            and ('shared argument' in why or "differs from its outcome alone" in why):
+        return 'vars_mutable_default_persists'
+    if case.get('mode') == 'repr' and case['repr'].get('on') == 'self':
+        outs = (case.get('impl') or {}).get('outs') or []
+        alone = [t.get('alone') for t in case.get('threads') or []]
+        # only the inner call differs, and it differs by showing `...` for the object whose repr is running
+        if len(outs) == 2 and len(alone) == 2 and outs[0] == alone[0] and outs[1] != alone[1] \
+                and 'err' in outs[1] and ': ...' in outs[1]['err'][1]:
+            return 'reentry_from_repr_during_render'
+    return None
 
 
 def focus(disagreements, facts_changed):
